@@ -171,4 +171,10 @@ def suite_edges(ctx):
     return s
 
 
-SUITES = [suite_call, suite_edges]
+def suite_callw(ctx):
+    """whole client calls of every service family against the model's callWith (udsdrv callw): the correspondence the call-level theorems rest on"""
+    from .. import callw
+    return callw.suite_callw(ctx, 'C06')
+
+
+SUITES = [suite_call, suite_edges, suite_callw]
